@@ -58,4 +58,22 @@ PROPS = {
         trusted=["modelled, not verified: errors.Is/As, fmt.Errorf %w, grpc status.Code/FromError/Error (v1.55), strings.Split, encoding/json", "class list, both tables and the marker are regenerated from errors.go / grpc.go by harness/cmd/extract"],
         explanation="C19.tables_consistent/keys_nodup/no_unknown_code by `decide` on the REGENERATED tables; is_after_wrap/no other class/order independence/idempotence/extract for every chain and every map order derived from them",
     ),
+    "C10": dict(
+        lean=["GolibsVerif.Props.C10"],
+        seq=[dict(comp="omap", decisive=lambda d: not d["op"].startswith("chain") and not d["op"].startswith("mon C11"),
+                  ignore=lambda d: d["op"].startswith("mon C11"))],
+        rule="cases = histories over Add/Remove/Get/Len/First/Iterator/HasNext/Next/Close on a fresh Map: exhaustive to depth 5 (quick, keys {1,2}, <= 2 iterators) / 6 (thorough, <= 3 iterators), random histories of 10..150 ops over 2-4 keys with up to 8 simultaneously open iterators and re-added keys, all iterators closed at the end; non-trivial = an iterator was parked on an entry at the moment it was removed, or an iterator was closed while the head entry was removed-but-pinned; distinct by hash of the op list",
+        assumptions=["an iterator is not used after Close and is closed at most once (documented contract)", "for Next()==false / First()==false the returned key/value are not compared (pooled nodes may carry stale keys)"],
+        trusted=["modelled, not verified: pointer splicing is abstracted to list erase (the internal view `chain` compares state, refCnt and key of every linked node positionally after every op)", "sync.Pool reuse is modelled as fresh node ids"],
+        explanation="C10.map_refines_spec: for every history the I-model never dereferences nil and all outputs equal the Spec's; C10.inv; release_legacy_dangles is the kernel-checked witness of D1",
+    ),
+    "C11": dict(
+        lean=["GolibsVerif.Props.C11"],
+        seq=[dict(comp="omap", decisive=lambda d: d["op"].startswith("mon C11"),
+                  ignore=lambda d: d["op"].startswith("mon C10"))],
+        rule="same histories as C10; after EVERY op the Go-side monitor walks the real list from the head and checks linked nodes = Len+1+removed-but-pinned, pinned <= open iterators, and = Len+1 when no iterator is open; non-trivial as in C10",
+        assumptions=["GC reachability of pooled nodes and wall-clock cost are runtime notions; the model bounds linked nodes and traversal steps"],
+        trusted=["modelled, not verified: as C10"],
+        explanation="C11.chain_bound / closed_means_clean / next_fuel_suffices for every history",
+    ),
 }
